@@ -158,8 +158,8 @@ func getShardBetweenExprRouteResult(rule router.Rule, n *ast.BetweenExpr) ([]int
 
 	if n.Not {
 		if start > last {
-			start, last = last, start
-			start = adjustShardIndex(rangeShard, rightValue, start)
+			// the bounds are reversed: BETWEEN matches nothing, so NOT BETWEEN matches every row
+			return rule.GetSubTableIndexes(), nil
 		} else {
 			start = adjustShardIndex(rangeShard, leftValue, start)
 		}
